@@ -83,7 +83,8 @@ SPECS["C13"] = {
                   "splits poll_next into its atomic actions (listen / upgrade / receive / check) and lets other threads "
                   "release channels, deliver their delayed drop notifications, let channels arrive or end the listener "
                   "between any two of them; C13_race_alive_le_n, C13_race_monitor (the decision view of EVERY interleaving is "
-                  "accepted by the C13 monitor), C13_race_shed_only_if_was_full, C13_race_accept_*, C13_race_pc_flow. It is "
+                  "accepted by the C13 monitor), C13_race_shed_only_if_was_full, C13_race_accept_*, C13_race_pc_flow, C13_race_poll_bound (without interference "
+                  "poll_next returns within 4 * (pending arrivals + queued notifications) + 5 atomic actions). It is "
                   "tied to the code through the yield points of hook H5, which sit exactly at those boundaries: the real "
                   "limiter's run is logged as a flat list of race ops and compared with the model op by op (observations "
                   "and program counter).",
